@@ -18,6 +18,8 @@ def run_family(ctx, family, n, oracle, stream=None, known_hang=None):
         ctx.count(stream, {"family": family, "payloads": [(p["pid"], p["fl"], p.get("role"), p.get("mode")) for p in sc.get("payloads", [])],
                            "control": sc.get("control") or [r.get("end") for r in sc.get("runs", [])]}, nontrivial)
         ctx.tally("events", len(tr[1]))
+        for ev in tr[1]:
+            ctx.tally("event:" + ev[0] + (":" + str(ev[2]) if ev[0] in ("bodyEnd", "adopt", "newUnit", "execBegin") else ""))
         ctx.tally("payloads", len(sc.get("payloads", [])))
         if out.get("retried"):
             ctx.tally("worker-retried")
